@@ -113,6 +113,37 @@ with scoped_catches (d : nat) (l : catches) {struct l} : bool :=
 
 Inductive rctl := RNone | RBrk (l : lid) | RCnt (l : lid) | RRet (v : value) | RThrow (v : value).
 
+(* ---------- named arguments, reference semantics (PHP 8 named arguments) ----------
+   A named argument x: v is legal when some parameter is called x, that parameter is not among those
+   that received a positional argument, and x was not named before.  Each parameter then receives its
+   positional argument if there is one, else the argument named after it, else its default; a
+   parameter left without any is an ArgumentCountError.  (A name addresses the first parameter that
+   carries it: it is consumed there.)  Written per parameter with association lists — no cells, no
+   indices — unlike ImplSem. *)
+Definition smem (x : string) (l : list string) : bool := existsb (String.eqb x) l.
+Fixpoint assoc_named (x : string) (nvs : list (string * value)) : option value :=
+  match nvs with
+  | [] => None
+  | (y, v) :: r => if String.eqb x y then Some v else assoc_named x r
+  end.
+Definition without_name (x : string) (nvs : list (string * value)) : list (string * value) :=
+  filter (fun yv : string * value => negb (String.eqb (fst yv) x)) nvs.
+Definition named_ok_spec (ps : list (string * option value)) (vs : list value) (x : string) (seen : list (string * value)) : bool :=
+  smem x (map fst ps) && negb (smem x (firstn (List.length vs) (map fst ps))) && negb (smem x (map fst seen)).
+Fixpoint arrange_spec (ps : list (string * option value)) (vs : list value) (nvs : list (string * value)) : option (list value) :=
+  match ps with
+  | [] => Some []
+  | (x, d) :: r =>
+      let this := match vs with
+                  | v :: _ => Some v
+                  | [] => match assoc_named x nvs with Some v => Some v | None => d end
+                  end in
+      match this, arrange_spec r (tl vs) (without_name x nvs) with
+      | Some v, Some l => Some (v :: l)
+      | _, _ => None
+      end
+  end.
+
 (* ---------- expressions ---------- *)
 Section Expr.
 Variable callf : callfn.
@@ -293,6 +324,31 @@ Fixpoint reval (e : expr) (fr : frame) (g : glob) {struct e} : res eout :=
       | Res (EV v) fr g => reval_arms v m fr g
       | r => r
       end
+  | ECallN f a xs b =>
+      (* positional arguments left to right, then the named ones left to right; each named value is
+         computed before its name is judged; the callee receives one value per parameter *)
+      match find_fun funs f with
+      | None => Res (EX (err "undefined function")) fr g
+      | Some d =>
+          match reval_args a fr g with
+          | Res (inl vs) fr g =>
+              match reval_nargs (named_ok_spec (fparams d) vs) xs [] b fr g with
+              | Res (inl nvs) fr g =>
+                  match arrange_spec (fparams d) vs nvs with
+                  | Some full =>
+                      match callf (CFun f) full g with
+                      | Some (o, g') => Res o fr g'
+                      | None => Fuel
+                      end
+                  | None => Res (EX (err "argument not passed")) fr g
+                  end
+              | Res (inr x) fr g => Res (EX x) fr g
+              | Fuel => Fuel
+              end
+          | Res (inr x) fr g => Res (EX x) fr g
+          | Fuel => Fuel
+          end
+      end
   end
 with reval_args (a : args) (fr : frame) (g : glob) {struct a} : res (list value + value) :=
   match a with
@@ -328,6 +384,23 @@ with reval_conds (v : value) (c : args) (fr : frame) (g : glob) {struct c} : res
       | Res (EV w) fr g => if same_value v w then Res (inl true) fr g else reval_conds v r fr g
       | Res (EX x) fr g => Res (inr x) fr g
       | Fuel => Fuel
+      end
+  end
+with reval_nargs (ok : string -> list (string * value) -> bool) (xs : list string) (seen : list (string * value))
+                 (b : args) (fr : frame) (g : glob) {struct b} : res (list (string * value) + value) :=
+  match b with
+  | ANil => Res (inl seen) fr g
+  | ACons e r =>
+      match xs with
+      | [] => Res (inl seen) fr g
+      | x :: xr =>
+          match reval e fr g with
+          | Res (EV v) fr g =>
+              if ok x seen then reval_nargs ok xr (seen ++ [(x, v)])%list r fr g
+              else Res (inr (err "named parameter")) fr g
+          | Res (EX w) fr g => Res (inr w) fr g
+          | Fuel => Fuel
+          end
       end
   end.
 
